@@ -413,11 +413,20 @@ void run_cfg(int cfg_index, int len0, const Cfg& cfg, Stats& st, const std::vect
 
 } // namespace
 
+int C33NetPart(bool big, double budget_s); // netpart.cpp: the net_processing half, on the real PeerManager
+
 int main(int argc, char** argv)
 {
     vx::init(argc, argv, "C33", "model_checking");
     auto& E = vx::ev();
     const bool big = vx::thorough();
+    int net_rc = 0;
+    // part (n) first: it forks a single-threaded node process, which must happen before any worker thread exists
+    if (vx::ctx().replay.empty() || getenv("C33_NET_ONLY")) {
+        net_rc = C33NetPart(big, getenv("C33_NET_BUDGET") ? atof(getenv("C33_NET_BUDGET")) : big ? 500 : 60);
+        if (net_rc == 2) { vx::write_evidence(); return 2; }
+        if (getenv("C33_NET_ONLY")) return vx::finish();
+    }
 
     SHA256AutoDetect();
     g_cons = CChainParams::Main()->GetConsensus();
